@@ -6,7 +6,7 @@
 //! script := nm  ntasks  task*            modules = 1 + nm % 2 ("a", "b")
 //! task   := len [ mod start step* ]      module = mod % modules; start = 0: spawned by
 //!                                        at_sim_start, else by a message delivered at `start`
-//! step   := 1 d | 2 t | 3 d k x | 4 f a b | 5 p beh k b1..bk | 6 f d1 d2 | 7 d | 8 | 9 ch d | 10 ch | 11 d ch | 12 f ch d | 13 f d0 d2 x d3
+//! step   := 1 d | 2 t | 3 d k x | 4 f a b | 5 p beh k b1..bk | 6 f d1 d2 | 7 d | 8 | 9 ch d | 10 ch | 11 d ch | 12 f ch d | 13 f d0 d2 x d3 | 14 f d
 //!   1 sleep(d)            2 sleep_until(t)       3 timeout(d, k even: sleep(x) / k odd: Flip)
 //!   4 select!{ sleep(a) => 0, sleep(b) => 1 }, f odd = `biased;`
 //!   5 interval(max(1,p)), behaviour beh%3 (0 Burst 1 Delay 2 Skip), k ticks, sleep(b_i) after tick i if b_i > 0
@@ -18,7 +18,10 @@
 //!   12 select!{ biased; x = receive from ch => 0 (x dropped), sleep(d) => 1 }, f odd: the receive branch comes first
 //!   13 keep-alive timer: Box::pin(sleep(d0)) polled once, reset(now + d2); select!{ biased; it => 0, sleep(x) => 1 };
 //!      on 1: f odd: reset(now + d3) and await, f even: drop
-//! A duration >= 2^61 stands for Duration::MAX (steps 3 4 6 7 11 12 13): `now + d` is SimTime::MAX at now = 0 and not
+//!   14 same task, other waker: Box::pin(sleep(d)); f even: polled once with the task's own waker, then awaited through a
+//!      sub-executor (`Sub`: polls its child with ITS OWN waker, and only when that waker was woken -- FuturesUnordered,
+//!      JoinSet, select_all .. work like this); f odd: polled once through the sub-executor, then awaited directly
+//! A duration >= 2^61 stands for Duration::MAX (steps 3 4 6 7 11 12 13 14): `now + d` is SimTime::MAX at now = 0 and not
 //! representable later (Sleep::far_future); a reset target >= 2^61 is SimTime::MAX. SimTime::MAX is printed as 2^62 - 1.
 //! A task spawned by a message (start > 0) that sends at once is a message event whose handler sends on a channel.
 //!
@@ -40,9 +43,9 @@ use std::task::Waker;
 use implrun::Cur;
 use std::future::{poll_fn, Future};
 use std::pin::Pin;
-use std::sync::atomic::{AtomicU64, Ordering::SeqCst};
-use std::sync::Mutex;
-use std::task::{Context, Poll};
+use std::sync::atomic::{AtomicBool, AtomicU64, Ordering::SeqCst};
+use std::sync::{Arc, Mutex};
+use std::task::{Context, Poll, Wake};
 
 static LOGS: Mutex<Vec<Vec<u64>>> = Mutex::new(Vec::new());
 static FIN: Mutex<Vec<bool>> = Mutex::new(Vec::new());
@@ -158,6 +161,7 @@ enum Step {
     TimeoutRecv(u64, u64),
     SelRecv(bool, u64, u64),
     Keep(bool, u64, u64, u64, u64),
+    Wrap(bool, u64),
 }
 
 #[derive(Clone, Debug)]
@@ -180,6 +184,52 @@ impl Future for Flip {
             cx.waker().wake_by_ref();
             Poll::Pending
         }
+    }
+}
+
+/// The waker a sub-executor hands to its child: when woken it marks the child as ready to be polled and wakes the
+/// task the sub-executor runs in (the waker of its own last poll).
+struct SubWaker {
+    woken: AtomicBool,
+    parent: Mutex<Option<Waker>>,
+}
+
+impl Wake for SubWaker {
+    fn wake(self: Arc<Self>) {
+        self.wake_by_ref();
+    }
+    fn wake_by_ref(self: &Arc<Self>) {
+        self.woken.store(true, SeqCst);
+        if let Some(w) = self.parent.lock().unwrap().as_ref() {
+            w.wake_by_ref();
+        }
+    }
+}
+
+/// A sub-executor with one child: it polls the child with its own waker, and only when that waker has been woken since
+/// the last poll (initially: once).  A child whose timer wakes some OTHER waker is never polled again.
+struct Sub {
+    inner: Pin<Box<Sleep>>,
+    w: Arc<SubWaker>,
+}
+
+impl Sub {
+    fn new(inner: Pin<Box<Sleep>>) -> Sub {
+        Sub { inner, w: Arc::new(SubWaker { woken: AtomicBool::new(true), parent: Mutex::new(None) }) }
+    }
+}
+
+impl Future for Sub {
+    type Output = ();
+    fn poll(self: Pin<&mut Self>, cx: &mut Context<'_>) -> Poll<()> {
+        let me = self.get_mut();
+        *me.w.parent.lock().unwrap() = Some(cx.waker().clone());
+        if !me.w.woken.swap(false, SeqCst) {
+            return Poll::Pending;
+        }
+        let waker = Waker::from(me.w.clone());
+        let mut c = Context::from_waker(&waker);
+        me.inner.as_mut().poll(&mut c)
     }
 }
 
@@ -242,6 +292,10 @@ fn dec_steps(b: &[u64]) -> Vec<Step> {
             13 if left >= 5 => {
                 out.push(Step::Keep(b[i + 1] % 2 == 1, b[i + 2], b[i + 3], b[i + 4], b[i + 5]));
                 i += 6;
+            }
+            14 if left >= 2 => {
+                out.push(Step::Wrap(b[i + 1] % 2 == 1, b[i + 2]));
+                i += 3;
             }
             _ => break,
         }
@@ -384,6 +438,26 @@ async fn interpret(k: usize, m: u64, steps: Vec<Step>) {
                     }
                     log(k, &[now()]);
                 }
+            }
+            Step::Wrap(wrapper_first, d) => {
+                let mut s = Box::pin(sleep(fdur(d)));
+                if wrapper_first {
+                    let mut sub = Sub::new(s);
+                    poll_fn(|cx| {
+                        let _ = Pin::new(&mut sub).poll(cx);
+                        Poll::Ready(())
+                    })
+                    .await;
+                    sub.inner.await;
+                } else {
+                    poll_fn(|cx| {
+                        let _ = s.as_mut().poll(cx);
+                        Poll::Ready(())
+                    })
+                    .await;
+                    Sub::new(s).await;
+                }
+                log(k, &[now()]);
             }
             Step::RecvAwait(ch) => {
                 let s = Recv { key: (m, ch), k }.await;
